@@ -172,7 +172,98 @@ def mime_part(rng, depth, maxdepth, parts_max, kind=None):
     return b''.join(h + b'\n' for h in hdrs) + b'\n' + out
 
 
+# ---- boundaries only an RFC 2047 encoded word in the Content-Type value can produce --------------------------------------------
+# decodeheader() RFC 2047-decodes the whole Content-Type value before parseboundary() sees it, so boundary="=?UTF-8?Q?a=0A?=" is the
+# boundary "a\n".  findboundary() compares bytes (not lines) and, after a failed comparison, resumes with skipline() from the byte AFTER
+# the text it compared: a line that begins inside the compared text is never examined.  These generators aim at that: boundaries with
+# newline, CR, other control bytes (never NUL: it would end the C string) and "--", and bodies made of delimiter look-alikes.
+ENC_BOUNDARIES = [b'a\n', b'a\n', b'a\nb', b'\na', b'\n', b'a\n\n', b'a\n--', b'a\n--a', b'a\n--a\n', b'x\n--x', b'b\nb', b'-\n-', b'--', b'a--', b'--a',
+                  b'a--\n', b'--\n--', b'\n--', b'a\r', b'a\r\n', b'\ra', b'\r', b'\x01', b'a\x01b', b'a\tb', b'\x7f', b'\x0b\x0c', b' a', b'a ', b'a\n ',
+                  b'\n\n', b'ab\nab', b'a\nb\nc']
+
+# the witness found by package PG2 (the list model examined the line at offset 4 of the body, message.c does not): no part, no error
+PG2_WITNESS = b'Content-Type: multipart/mixed; boundary="=?UTF-8?Q?a=0A?="\n\n--a\n--a\n\nX: y\n\nfound\n--a\n--\n'
+# relatives: the skipped line is a terminator / the resumption point is inside a later delimiter line / alternative
+PG2_RELATIVES = [
+    b'Content-Type: multipart/mixed; boundary="=?UTF-8?Q?a=0A?="\n\n--a\n--a\n--\nrest\n',
+    b'Content-Type: multipart/alternative; boundary="=?UTF-8?Q?a=0A?="\n\n--a\n--a\n\nContent-Type: text/plain\n\nfound\n--a\n--\n',
+    b'Content-Type: multipart/mixed; boundary="=?UTF-8?B?YQo=?="\n\n--a\n\nX: y\n\none\n--a\n--a\n\ntwo\n--a\n--\n',
+    b'Content-Type: multipart/mixed; boundary="=?x?q?a=0A--a?="\n\n--a\n--a\n--a\n--a\n\nX: y\n\nfound\n--a\n--a--\n',
+    b'Content-Type: multipart/mixed; boundary="=?x?Q?=0A?="\n\n--\n--\n\n\nfound\n--\n--\n',
+    b'Content-Type: multipart/mixed; boundary="=?x?Q?a=0Ab?="\n\n--a\n--a\nb\nX: y\n\nfound\n--a\nb--\n',
+    b'Content-Type: multipart/mixed; boundary="=?x?Q?--?="\n\n------\n\nfound\n------\n----\n--\n',
+    b'Content-Type: multipart/mixed; boundary="=?x?Q?a=0D?="\n\n--a\r\nX: y\n\nfound\n--a\r--\n',
+]
+
+
+def encode_boundary(rng, bnd):
+    """One RFC 2047 encoded word (Q or B) that decodes to `bnd`."""
+    if rng.random() < 0.7:
+        t = b''.join(bytes([c]) if (chr(c).isalnum() and c < 128 and rng.random() < 0.8) else b'=%02X' % c for c in bnd)
+        return b'=?' + rng.choice([b'UTF-8', b'utf-8', b'x', b'']) + b'?' + rng.choice([b'Q', b'q']) + b'?' + t + b'?='
+    return b'=?UTF-8?' + rng.choice([b'B', b'b']) + b'?' + base64.b64encode(bnd) + b'?='
+
+
+def lookalike_body(rng, bnd):
+    """A body over delimiter look-alikes of `bnd`: whole delimiters, their pieces, the lines of the boundary, ordinary part text."""
+    lines = bnd.split(b'\n')
+    toks = [b'--' + bnd + b'\n', b'--' + bnd + b'\n', b'--' + bnd + b'--\n', b'--' + bnd + b'--\n', b'--' + bnd, b'--' + bnd + b'--', b'--', b'--', bnd, b'\n', b'\n',
+            b'--\n', b'--' + lines[0] + b'\n', lines[-1] + b'\n', b'--' + lines[-1] + b'\n', b'--' + lines[-1] + b'--\n', b'--' + bnd + b'-', b'--' + bnd + b' \n',
+            b'-', bnd[1:], bnd[:-1], b'X: y\n', b'\nfound\n', b'text\n', b'Content-Type: text/plain\n\n', b'Content-Type: text/html\n\n<b>h</b>\n',
+            b'Content-Transfer-Encoding: base64\n\naGVsbG8K\n']
+    return b''.join(rng.choice(toks) for _ in range(rng.choice([1, 2, 3, 4, 5, 6, 8, 10, 14, 20])))
+
+
+def encoded_boundary_entity(rng, depth=0):
+    """Headers + blank line + body of a multipart entity whose boundary comes out of an encoded word (or holds a raw CR/control byte)."""
+    bnd = rng.choice(ENC_BOUNDARIES)
+    sub = rng.choice([b'mixed', b'mixed', b'alternative', b'related'])
+    if b'\n' not in bnd and b'"' not in bnd and rng.random() < 0.25:
+        par = bnd                                            # CR, control bytes, "--": also possible without an encoded word
+    else:
+        par = encode_boundary(rng, bnd)
+    ctl = b'Content-Type: multipart/' + sub + rng.choice([b'; ', b';', b';\n\t']) + b'boundary="' + par + b'"'
+    hdrs = [ctl]
+    if rng.random() < 0.3:
+        hdrs.append(b'X-Label: ' + rng.choice(WORDS[:8]))
+    rng.shuffle(hdrs)
+    k = rng.random()
+    if k < 0.45:
+        body = lookalike_body(rng, bnd)
+    else:
+        # a regular tree cut with this boundary (a part's text starts after the FIRST newline of the delimiter line), look-alikes between
+        body = rng.choice([b'', b'preamble\n', b'--' + bnd])
+        for i in range(rng.choice([0, 1, 1, 2, 3, 5])):
+            body += b'--' + bnd + b'\n'
+            if depth < 2 and rng.random() < 0.2:
+                p = encoded_boundary_entity(rng, depth + 1)
+            else:
+                p = mime_part(rng, depth + 1, 2, 2)
+            body += p if p.endswith(b'\n') else p + b'\n'
+            if rng.random() < 0.5:
+                body += lookalike_body(rng, bnd)
+        t = rng.random()
+        if t < 0.75:
+            body += b'--' + bnd + b'--\n'
+        elif t < 0.85:
+            body += b'--' + bnd + b'--'
+        if rng.random() < 0.2:
+            body += lookalike_body(rng, bnd)
+    return b''.join(h + b'\n' for h in hdrs) + b'\n' + body
+
+
+def encoded_boundary_message(rng):
+    top = [b'To: user@example.com', b'Subject: ' + rng.choice(WORDS[:8])]
+    rng.shuffle(top)
+    k = rng.random()
+    if k < 0.04:
+        return rng.choice([PG2_WITNESS] + PG2_RELATIVES)
+    return b''.join(h + b'\n' for h in top[:rng.randrange(3)]) + encoded_boundary_entity(rng)
+
+
 def mime_message(rng, maxdepth=3, parts_max=6):
+    if rng.random() < 0.12:
+        return encoded_boundary_message(rng)
     top = [b'To: user@example.com', b'Subject: ' + rng.choice(WORDS[:8])]
     rng.shuffle(top)
     ent = mime_part(rng, 0, maxdepth, parts_max, kind=rng.choice(['multi', 'multi', 'multi', 'leaf']))
